@@ -504,7 +504,7 @@ def witness_cases(findings):
 
 def run(ctx):
     t0 = time.time()
-    st = vlib.proof_stage(ctx, "C01", PROOF_TARGETS + ["TypifyModel.Proofs.Dispatch", "TypifyModel.Proofs.DispatchFuel", "TypifyModel.Proofs.DispatchSourceAll"], PROOF_FILES + ["Proofs/Dispatch.lean", "Proofs/DispatchFuel.lean", "Proofs/DispatchSource.lean", "Proofs/DispatchSourceS1.lean", "Proofs/DispatchSourceS2.lean", "Proofs/DispatchSourceAll.lean"], slices=["c01", "disp"])
+    st = vlib.proof_stage(ctx, "C01", PROOF_TARGETS + ["TypifyModel.Proofs.Dispatch", "TypifyModel.Proofs.DispatchFuel", "TypifyModel.Proofs.DispatchSourceAll", "TypifyModel.Proofs.DispatchFragmentSource"], PROOF_FILES + ["Proofs/Dispatch.lean", "Proofs/DispatchFuel.lean", "Proofs/DispatchSource.lean", "Proofs/DispatchSourceS1.lean", "Proofs/DispatchSourceS2.lean", "Proofs/DispatchSourceAll.lean", "Proofs/DispatchFragmentSource.lean"], slices=["c01", "disp"])
     # "schemas of the supported fragment are never rejected", at the shape dispatch of convert.rs: the arm every keyword combination
     # ends in (the final `todo!()` included) against Model/Dispatch.lean over the keyword lattice (M0)
     import dispstage
